@@ -4,7 +4,7 @@ from shell import replayers
 ID = "C05"
 LEVEL = "proof"
 FUNCTIONS = ["LimitOrderBook.liq_price", "LimitOrderBook.acq_price", "LimitOrderBook.mid_price",
-             "Broker.marking_to_market", "Broker.transact", "Broker.holdings_values", "Broker.net_liquidation_value",
+             "Broker.__init__", "Broker.marking_to_market", "Broker.transact", "Broker.holdings_values", "Broker.net_liquidation_value",
              "Broker.holdings_weights", "Broker.context"]
 REPLAYERS = [
     ("Broker.marking_to_market::", replayers.marking_to_market_post),
